@@ -272,10 +272,7 @@ func decodeTargetsFresh(c *an.Ctx, rule string, funcs []*ssa.Function) int {
 				}
 				return false
 			})
-			name := s.al.Comment
-			if name == "" {
-				name = s.al.Name()
-			}
+			name := strings.TrimPrefix(an.Path(s.al), "&local:")
 			c.Add(again == nil, rule, an.FuncName(f)+":decode-target-fresh:"+name, s.in, "the decode target "+name+" is a fresh zero value each time a message is decoded into it (a reused struct would keep fields of the previous message)", "reach/cut: no decode→decode path avoiding the variable's allocation")
 		}
 	}
